@@ -391,6 +391,10 @@ theorem invF_step {k : Nat} {s s' : St V} {l : Label V} (ho : ctxOrigin = .plain
     obtain ⟨hp, rfl⟩ := step_cCtx h
     exact invF_consumer hi rfl rfl rfl rfl rfl rfl (fun _ rest hr => by rw [hp] at hr; cases hr)
       (fun _ he => by simp at he; exact .inl he) (fun he => by simp at he; exact .inl he)
+  | cExpire =>
+    obtain ⟨hp, rfl⟩ := step_cExpire h
+    exact invF_consumer hi rfl rfl rfl rfl rfl rfl (fun _ rest hr => by rw [hp] at hr; cases hr)
+      (fun _ he => .inl he) (fun he => .inl he)
   | cEnd =>
     obtain ⟨live, hp, hpos, rfl⟩ := step_cEnd h
     have hn : notClosing s := fun rest hr => by rw [hp] at hr; cases hr
